@@ -361,11 +361,19 @@ def replay(spec):
         return {'violated': bool(fails), 'detail': fails}
     if chk == 'rotvec':
         v = np.array([pt.get('v0', 0.1), pt.get('v1', 0.2), pt.get('v2', 0.3)], dtype=float)
-        R = np.empty((3, 3))
-        _numba_integrate.mat_from_rotvec(v, R)
-        ref = Rotation.from_rotvec(v).as_matrix()
-        err = np.abs(R - ref).max()
-        return {'violated': bool(err > 2e-15), 'detail': 'mat_from_rotvec differs from exp([v x]) by %.3g at v=%s' % (err, v.tolist())}
+        nv = np.linalg.norm(v)
+        u = v / nv if nv > 0 else np.array([1.0, 0, 0])
+        # the point itself, then the same direction at norms swept log-uniformly over [1e-9, pi]
+        # (the property quantifies over every rotation vector, continuously across the branch)
+        worst, at = 0.0, v
+        for n_ in [nv] + list(np.exp(np.linspace(np.log(1e-9), np.log(np.pi), 600))):
+            w_ = u * n_
+            R = np.empty((3, 3))
+            _numba_integrate.mat_from_rotvec(w_, R)
+            err = np.abs(R - Rotation.from_rotvec(w_).as_matrix()).max()
+            if err > worst:
+                worst, at = err, w_
+        return {'violated': bool(worst > 2e-15), 'detail': 'mat_from_rotvec differs from exp([v x]) by %.3g at v=%s (|v|=%.4g)' % (worst, at.tolist(), np.linalg.norm(at))}
     if chk == 'phi_delta':
         rph = np.array([pt.get('roll', 10.0), pt.get('pitch', 20.0), pt.get('heading', 30.0)])
         phi = np.array([pt.get('phi0', 0.3), pt.get('phi1', -0.2), pt.get('phi2', 0.5)])
